@@ -5,6 +5,7 @@ import (
 	"go/constant"
 	"go/token"
 	"go/types"
+	"math/big"
 	"os"
 	"sort"
 	"strings"
@@ -75,6 +76,7 @@ type Engine struct {
 	Replace          map[string]string // full name of a replaced function -> harness function (engine only)
 	Replaced         map[string]int
 	uniq             []*value // unique.Make table (engine lifetime)
+	vclock           *big.Int // virtual clock for timers of concrete duration
 	initStart        int
 	ShardIdx, ShardN int
 	shardUsed        bool
@@ -1115,6 +1117,7 @@ func (e *Engine) resetPath(dec []int) {
 	e.depth = 0
 	e.sync = map[*value]*syncState{}
 	e.syncMaps = map[*value]*mapV{}
+	e.vclock = new(big.Int)
 	e.nowLast = nil
 	e.atoms = nil
 	e.timers = map[*value]*chanV{}
